@@ -151,11 +151,12 @@ Proof. vm_compute. reflexivity. Qed.
    functions the theorems above are about.  `run` is Prelude/PyAst.v's interpreter; `run_mut` (Prelude/PyAstMut.v) also
    returns the parameters afterwards, so a method tie states the reader / writer after the call (first element).
    A tag argument is `vopt_tag t` (None or an ASN1Tag), a header `vopt_header h`, a hint `vopt_str s` (None or a str: it only
-   feeds message texts); Python bools are ints.  Loops: the interpreter's fuel must exceed the model's own bound. ---- *)
+   feeds message texts); Python bools are ints; a dotted-decimal str is its arcs (OOid).  Loops: the interpreter's fuel must
+   exceed the model's own bound.  _read_asn1_integer needs octets (wfb). ---- *)
 From V Require Import Prelude.PyAst.
 From V Require Import Prelude.PyWorld Prelude.PyAstMut gen.F_asn1 Flow.World_asn1.
 From V Require Import Proofs.Flow_asn1_pack Proofs.Flow_asn1_b128 Proofs.Flow_asn1_tlv Proofs.Flow_asn1_hdr Proofs.Flow_asn1_read
-  Proofs.Flow_asn1_reader Proofs.Flow_asn1_writer.
+  Proofs.Flow_asn1_int Proofs.Flow_asn1_oid Proofs.Flow_asn1_reader Proofs.Flow_asn1_writer.
 Local Open Scope string_scope.
 Local Open Scope list_scope.
 Local Open Scope Z_scope.
@@ -249,6 +250,29 @@ Theorem C07_flow_read_asn1_enumerated : forall fuel data t h hint,
   (let* r := m_read_enumerated data t h in Ok (inj_int r)).
 Proof. exact flow_read_asn1_enumerated. Qed.
 Print Assumptions C07_flow_read_asn1_enumerated.
+Theorem C07_flow_read_asn1_integer : forall fuel data t h hint,
+  wfb data = true ->
+  run W fuel k_flow_read_asn1_integer [VB data; vopt_tag t; vopt_header h; vopt_str hint] =
+  (let* r := m_read_integer data t h in Ok (inj_int r)).
+Proof. exact flow_read_asn1_integer. Qed.
+Print Assumptions C07_flow_read_asn1_integer.
+Theorem C07_flow_pack_asn1_integer : forall fuel value t,
+  (bits_fuel (Z.abs value) < fuel)%nat ->
+  run W fuel k_flow_pack_asn1_integer [VI value; vopt_tag t] = lift_b (pack_integer value t).
+Proof. exact flow_pack_asn1_integer. Qed.
+Print Assumptions C07_flow_pack_asn1_integer.
+Theorem C07_flow_encode_object_identifier : forall fuel arcs,
+  Forall (fun c => (bits_fuel c < fuel)%nat) (oid_cmps arcs) ->
+  run W fuel k_flow_encode_object_identifier [VO (OOid arcs)] = lift_b (encode_oid arcs).
+Proof. exact flow_encode_object_identifier. Qed.
+Print Assumptions C07_flow_encode_object_identifier.
+(* each arc consumes at least one octet: at most len(data) iterations *)
+Theorem C07_flow_read_asn1_object_identifier : forall fuel data t h hint,
+  (Datatypes.length data < fuel)%nat ->
+  run W fuel k_flow_read_asn1_object_identifier [VB data; vopt_tag t; vopt_header h; vopt_str hint] =
+  (let* r := m_read_object_identifier data t h in Ok (inj_oid r)).
+Proof. exact flow_read_asn1_object_identifier. Qed.
+Print Assumptions C07_flow_read_asn1_object_identifier.
 Theorem C07_flow_reader_init : forall fuel data,
   run_mut MW fuel k_flow_reader_init [VO ONewReader; VB data] = Ok (VN, [VO (OReader data); VB data]).
 Proof. exact flow_reader_init. Qed.
@@ -323,6 +347,30 @@ Theorem C07_flow_reader_read_set : forall fuel view t h hint,
   Ok (VO (OReader v), [VO (OReader rest); vopt_tag t; vopt_header h; vopt_str hint])).
 Proof. exact flow_reader_read_set. Qed.
 Print Assumptions C07_flow_reader_read_set.
+Theorem C07_flow_model_read_boolean : forall view t h,
+  read_boolean view t h = (let* (v, c) := m_read_boolean view t h in Ok (v, advance view c)).
+Proof. exact flow_model_read_boolean. Qed.
+Print Assumptions C07_flow_model_read_boolean.
+Theorem C07_flow_model_read_integer : forall view t h,
+  read_integer view t h = (let* (v, c) := m_read_integer view t h in Ok (v, advance view c)).
+Proof. exact flow_model_read_integer. Qed.
+Print Assumptions C07_flow_model_read_integer.
+Theorem C07_flow_model_read_enumerated : forall view t h,
+  read_enumerated view t h = (let* (v, c) := m_read_enumerated view t h in Ok (v, advance view c)).
+Proof. exact flow_model_read_enumerated. Qed.
+Print Assumptions C07_flow_model_read_enumerated.
+Theorem C07_flow_model_read_object_identifier : forall view t h,
+  read_object_identifier view t h = (let* (v, c) := m_read_object_identifier view t h in Ok (v, advance view c)).
+Proof. exact flow_model_read_object_identifier. Qed.
+Print Assumptions C07_flow_model_read_object_identifier.
+Theorem C07_flow_model_read_utf8_string : forall view t h,
+  read_utf8_string view t h = (let* (v, c) := m_read_str c_tag_utf8 view t h in Ok (v, advance view c)).
+Proof. exact flow_model_read_utf8_string. Qed.
+Print Assumptions C07_flow_model_read_utf8_string.
+Theorem C07_flow_model_read_generalized_time : forall view t h,
+  read_generalized_time view t h = (let* (v, c) := m_read_str c_tag_gentime view t h in Ok (v, advance view c)).
+Proof. exact flow_model_read_generalized_time. Qed.
+Print Assumptions C07_flow_model_read_generalized_time.
 (* __init__ on a fresh object (object.__new__(ASN1Writer)) *)
 Theorem C07_flow_writer_init : forall fuel t p,
   run_mut MW fuel k_flow_writer_init [VO ONewWriter; vopt_tag t; vopt_writer p] =
